@@ -55,7 +55,7 @@ pub assume_specification[ SocketAddrV6::port ](a: &SocketAddrV6) -> (r: u16) ens
 
 // String: UTF-8 byte view
 pub uninterp spec fn sbytes(s: String) -> Seq<u8>;
-pub uninterp spec fn is_utf8(b: Seq<u8>) -> bool;
+pub open spec fn is_utf8(b: Seq<u8>) -> bool { vstd::utf8::valid_utf8(b) }
 /// a String always holds valid UTF-8, and is determined by its bytes
 #[verifier::external_body]
 pub broadcast proof fn axiom_string_utf8(s: String) ensures #[trigger] is_utf8(sbytes(s)) {}
